@@ -441,3 +441,9 @@ Lemma scanned_kernels_disciplined : forallb (fun k => fdisc (snd k)) scanned_ker
 Proof. vm_compute. reflexivity. Qed.
 Lemma percall_kernels_stateless : percall_static_written = [].
 Proof. reflexivity. Qed.
+(* mutable file-scope variables and static locals found in the kernel source files (sasa.cpp, dssp.cpp, geometry.cpp,
+   neighbors.cpp, neighborlist.cpp, dridkernels.cpp, moments.cpp, the kernel headers, the rmsd sources): state that
+   outlives a call *)
+Definition kernel_files_static_state : list string := ["sasa.cpp:sphere_point_table"%string; "sasa.cpp:sphere_point_table_size"%string].
+Lemma kernel_files_stateless : kernel_files_static_state = [].
+Proof. reflexivity. Qed.
